@@ -190,15 +190,19 @@ Definition check (vfix cfix : bool) (c : ccase) : string :=
     | None, Some _ => (v ++ blame R_acc true)%string
     | Some _, None => (v ++ blame R_rej false)%string
     | Some n, Some (o, cl, du) =>
-      if rounded && negb (match coded_repetitions qc with Some m => Z.eqb m n | None => false end)
-      then (v ++ R_rounded)%string      (* both accept, different repetitions *)
-      else
         let d := disk_of c in
         let t :=
           (flag (close_list c o (opens d n)) "open-times-differ-from-model"
            ++ flag (close_list c cl (closes d n)) "close-times-differ-from-model"
            ++ flag (close_list c du (durations d n)) "durations-differ-from-model"
            ++ (if sd && same_length o cl then simulate c "" (combine o cl) else ""))%string in
+      (* both accept; the OBSERVED times decide.  If they differ from the specification and the rounding
+         variant of the code (integer pulse frequency rounded in the chopper's unit) predicts another
+         repetition count, that is named as the cause *)
+      if rounded && negb (match coded_repetitions qc with Some m => Z.eqb m n | None => false end)
+         && negb (String.eqb t "")
+      then (v ++ R_rounded)%string
+      else
         let k :=
           match c_casc c with
           | None => EmptyString
